@@ -34,6 +34,7 @@ type C16Scenario struct {
 	Client ClientCfg       `json:"client"`
 	Server refsmtpd.Config `json:"server"`
 	Script string          `json:"script"`
+	Conn   sim.ConnFaults  `json:"conn,omitempty"`
 	Sched  uint64          `json:"sched"`
 }
 
@@ -46,7 +47,7 @@ func (*c16) Level() string                   { return "exploration" }
 func (*c16) Decode(raw []byte) (any, error) { return decodeInto[C16Scenario](raw) }
 
 var c16Mechs = []string{"PLAIN-NOENC", "LOGIN-NOENC", "CRAM-MD5", "XOAUTH2", "SCRAM-SHA-1", "SCRAM-SHA-256", "PLAIN", "LOGIN", "SCRAM-SHA-256-PLUS", "SCRAM-SHA-1-PLUS", "AUTODISCOVER", "CUSTOM-PLAIN", "CUSTOM-LOGIN"}
-var c16Scripts = []string{"success", "success", "fail-auth", "fail-resp1", "fail-resp2", "fail-resp3", "bad-password", "malformed-challenge", "extra-challenge", "drop-auth", "drop-resp1", "drop-resp2", "stall-resp1", "stall-auth"}
+var c16Scripts = []string{"writefail-2", "writefail-3", "writefail-4", "success", "success", "fail-auth", "fail-resp1", "fail-resp2", "fail-resp3", "bad-password", "malformed-challenge", "extra-challenge", "drop-auth", "drop-resp1", "drop-resp2", "stall-resp1", "stall-auth"}
 
 func genSecret(r *sim.Rand, tag string) string {
 	const alpha = "abcdefghijklmnopqrstuvwxyzABCDEFGHIJKLMNOPQRSTUVWXYZ0123456789"
@@ -104,6 +105,14 @@ func (p *c16) Gen(seed uint64, i int, tier string) (any, bool) {
 		sc.Server.Rules = []refsmtpd.Rule{{Verb: "AUTHRESP", Nth: 1, Action: refsmtpd.Action{Kind: "stall"}}}
 	case "stall-auth":
 		sc.Server.Rules = []refsmtpd.Rule{{Verb: "AUTH", Nth: 1, Action: refsmtpd.Action{Kind: "stall"}}}
+	case "writefail-2", "writefail-3", "writefail-4":
+		// the transport refuses the n-th write of the client: on a plain connection write 1 is
+		// EHLO, write 2 the AUTH line, writes 3.. the SASL responses
+		sc.Conn.WriteFailNth = int(script[len(script)-1] - '0')
+	}
+	if r.Chance(1, 10) && (strings.HasPrefix(mech, "LOGIN") || mech == "CUSTOM-LOGIN" || mech == "CRAM-MD5") {
+		// an empty user name is unusual but expressible in these mechanisms
+		sc.Client.User, sc.Server.Auth.User = "", ""
 	}
 	return sc, true
 }
@@ -137,7 +146,7 @@ func (p *c16) Exec(t *testing.T, scAny any) Outcome {
 	var dial *CallRec
 	sent := false
 	res := RunSim(t, sc.Sched, sim.Policy{Kind: "random"}, 0, time.Hour, func(k *sim.Kernel) (func(), func()) {
-		env = &NetEnv{K: k, Srv: refsmtpd.New(k, sc.Server, TLSMat), Host: sc.Client.host()}
+		env = &NetEnv{K: k, Srv: refsmtpd.New(k, sc.Server, TLSMat), Host: sc.Client.host(), Faults: []sim.ConnFaults{sc.Conn}}
 		return func() {
 			c, err := BuildClient(sc.Client, env.Dial, logger)
 			if err != nil {
@@ -266,6 +275,11 @@ func (p *c16) Exec(t *testing.T, scAny any) Outcome {
 	if mechUsed != "" {
 		out.stat("mechanism-used."+mechUsed, 1)
 	}
+	for _, pp := range env.Pipes {
+		if pp.WriteFailFired {
+			out.stat("fault.fired.client_write_refused", 1)
+		}
+	}
 	for _, e := range env.Srv.H.Events {
 		if e.Kind == "reply" && (e.Verb == "AUTH" || e.Verb == "AUTHRESP") {
 			switch {
@@ -318,7 +332,7 @@ func (p *c16) Shrink(scAny any) []any {
 
 func (p *c16) Info() PropInfo {
 	return PropInfo{
-		Rule: "seeded search, round-robin over 13 auth types x 14 server scripts {success (x2), 535 to AUTH / to the 1st/2nd/3rd response, wrong stored password, malformed base64 challenge, unexpected extra challenge, disconnect at AUTH / 1st / 2nd response, silent stall at AUTH / 1st response until the timeout} x logger kind {capturing log.Logger, Stdlog, JSONlog} with high-entropy generated credentials (some with = , blank + / non-ASCII < > \" %); every 17th run is the control group with WithLogAuthData on; non-trivial = an AUTH command reached the server; distinct = distinct (auth type, mechanism used, script, logger, control group, outcome)",
+		Rule: "seeded search, round-robin over 13 auth types x 17 scripts {the transport refuses the client's 2nd/3rd/4th write (the AUTH line and the SASL responses on a plain connection), success (x2), 535 to AUTH / to the 1st/2nd/3rd response, wrong stored password, malformed base64 challenge, unexpected extra challenge, disconnect at AUTH / 1st / 2nd response, silent stall at AUTH / 1st response until the timeout} x logger kind {capturing log.Logger, Stdlog, JSONlog} with high-entropy generated credentials (some with = , blank + / non-ASCII < > \" %); every 17th run is the control group with WithLogAuthData on; non-trivial = an AUTH command reached the server; distinct = distinct (auth type, mechanism used, script, logger, control group, outcome)",
 		Assumptions: []string{"searched forms of the secret: raw, base64 (padded and unpadded), base64url, hex (both cases), plus the PLAIN/XOAUTH2 initial responses and the LOGIN password line exactly as the server received them; for JSONlog also every decoded string field",
 			"CRAM-MD5 digests and SCRAM proofs are not required to be absent (they do not carry the password; the statement does not demand it)"},
 		Real:        []string{"go-mail smtp.Client (cmd/Auth redaction window), Client debug-log plumbing, log.Stdlog, log.JSONlog, all SASL mechanisms", "crypto/tls where the mechanism needs it"},
